@@ -386,12 +386,17 @@ class HashableDense(tuple):
         return tuple.__new__(HashableDense,items)
 
     def __init__(self, items:Iterable[Any], hash_:int = None) -> None:
-        self._hash = hash_
+        self._given = hash_
+        self._hash  = hash_
 
     def __hash__(self) -> int:
-        if not self._hash:
+        if self._hash is None:
             self._hash = super().__hash__()
         return self._hash
+
+    def __reduce__(self):
+        #a cached hash is only valid in this process (str hashes are salted per process)
+        return HashableDense, (tuple(self),self._given)
 
 Dense.register(HashableDense)
 Dense.register(list)
@@ -488,6 +493,10 @@ class HashableSparse(abc.Mapping):
 
     def copy(self):
         return self._item.copy()
+
+    def __reduce__(self):
+        #a cached hash is only valid in this process (str hashes are salted per process)
+        return HashableSparse, (self._item,)
 
 Sparse.register(HashableSparse)
 Sparse.register(abc.Mapping)
